@@ -143,7 +143,7 @@ class TranslateNode(Node, TranslatableTag):
         """
         try:
             return to_int(block_scope.get(self.message_count_var, 1))  # defaults to 1
-        except ValueError:
+        except (ValueError, TypeError):
             return 1
 
     def resolve_message_context(
@@ -171,7 +171,7 @@ class TranslateNode(Node, TranslatableTag):
         message_context: Optional[str],
     ) -> str:
         """Get translated text from the given translations object."""
-        if self.plural_block and count:
+        if self.plural_block and count is not None:
             if message_context:
                 return translations.npgettext(
                     message_context,
